@@ -40,8 +40,9 @@ def e2e_case(alphas, n_rep, pi, seed, n_non=5, dup=False, features=None):
 def _run_e2e(job):
     from harness import run_impl
 
-    alphas, n, pi, seed, dup = job
-    c = e2e_case(alphas, n, pi, seed, dup=dup)
+    alphas, n, pi, seed, dup = job[:5]
+    n_non = job[5] if len(job) > 5 else 5
+    c = e2e_case(alphas, n, pi, seed, n_non=n_non, dup=dup)
     r = run_impl.run_case(c)
     n_rep_actual = None
     return {"job": job, "ok": r["ok"], "exc": r["exc"], "n_base": len(c["baseline"]), "tb": r.get("tb")}
@@ -136,13 +137,19 @@ def run(chk):
         for alphas in ([0.7], [0.9, 0.5]):
             for d in ([-1, 0, 1] if chk.tier == "quick" else [-2, -1, 0, 1, 2, 5]):
                 jobs.append((alphas, mn + d, pi, rng.randint(0, 10**6), False))
+    # every modelled unit reporting (no outstanding unit) and too few of them: the dedicated error is still due
+    jobs.append(([0.9], 14, "nonparametric", 11, False, 0))
+    jobs.append(([0.7, 0.9], 8, "nonparametric", 12, False, 0))
+    jobs.append(([0.9], 4, "gaussian", 13, False, 0))
+    jobs.append(([0.9], 6, "bootstrap", 14, False, 0))
+    jobs.append(([0.7], 9, "nonparametric", 15, False, 0))
     jobs.append(([0.7], 12, "nonparametric", 5, True))
     jobs.append(([0.7], 12, "gaussian", 6, True))
     jobs.append(([0.9], 12, "nonparametric", 7, True))  # too few AND duplicate: gate first
     outs = core.pmap(_run_e2e, jobs)
     exprs = []
     for o in outs:
-        alphas, n, pi, seed, dup = o["job"]
+        alphas, n, pi, seed, dup = o["job"][:5]
         mins = [impl_minimum(pi, a) for a in alphas]
         if o["ok"]:
             oc = "Runs"
@@ -158,11 +165,12 @@ def run(chk):
         exprs.append(f"check_gate {zlit(nn)} {llit([qlit(m) for m in mins])} {core.blit(dup)} {oc or 'Runs'}")
     res, errs = core.coq_eval("C14", IMPORTS, exprs, tag="e2e")
     for o, r in zip(outs, res):
-        alphas, n, pi, seed, dup = o["job"]
+        alphas, n, pi, seed, dup = o["job"][:5]
+        n_non = o["job"][5] if len(o["job"]) > 5 else 5
         mn = max(o["mins"])
-        chk.count({"pi": pi, "alphas": alphas, "d": n - mn, "oc": o["oc"], "dup": dup}, nontrivial=abs(n - mn) <= 12,
+        chk.count({"pi": pi, "alphas": alphas, "d": n - mn, "oc": o["oc"], "dup": dup, "outstanding": n_non}, nontrivial=abs(n - mn) <= 12,
                   sample={"estimator": pi, "levels": alphas, "reporting_units": n, "duplicate": dup, "outcome": o["oc"] or o["exc"]})
-        replay = {"kind": "e2e", "alphas": alphas, "n_reporting": n, "estimator": pi, "seed": seed, "dup": dup}
+        replay = {"kind": "e2e", "alphas": alphas, "n_reporting": n, "estimator": pi, "seed": seed, "dup": dup, "n_outstanding": n_non}
         if o["oc"] is None:
             chk.violation(f"{pi} levels={alphas} with {n} reporting units (minimum {mn}) failed with {o['exc'][0]}: {o['exc'][1][:120]}",
                           replay, {"kind": "e2e-failure", "estimator": pi, "exc": o["exc"][0]})
@@ -181,7 +189,7 @@ def run(chk):
 def replay(chk, payload):
     r = payload["replay"]
     if r.get("kind") == "e2e":
-        o = _run_e2e((r["alphas"], r["n_reporting"], r["estimator"], r["seed"], r["dup"]))
+        o = _run_e2e((r["alphas"], r["n_reporting"], r["estimator"], r["seed"], r["dup"], r.get("n_outstanding", 5)))
         print(o["ok"], o["exc"])
         return 0 if o["ok"] else 1
     print(payload)
